@@ -747,6 +747,15 @@ example : greedyProd 0 (exps2 0) [⟨1, none⟩, ⟨1, none⟩] = .fail "duplica
 example : checkRun 1 exps2 [⟨0, 1, 1, none⟩] = .pass := by decide
 example : checkRun 1 exps2 [⟨0, 1, 2, none⟩] = .fail "duplicated" 0 1 := by decide
 example : checkRun 1 exps2 [⟨0, 1, 0, none⟩] = .fail "lost" 0 1 := by decide
+/-- `A B A` with `B` LOST also arrives as `A A`: not a duplicate of `A` (it is not emitted more often than the two
+    `A` items allow) — `B` is named as lost; a line that IS emitted too often stays a duplicate. -/
+def exps4 : Nat → List Item := fun _ =>
+  [⟨1, 3, 0, .plain, [⟨some ⟨3, false, []⟩, true, 1⟩], [], 3⟩, ⟨2, 3, 0, .plain, [⟨some ⟨3, false, []⟩, true, 1⟩], [], 3⟩,
+   ⟨1, 3, 0, .plain, [⟨some ⟨3, false, []⟩, true, 1⟩], [], 3⟩]
+example : greedyProd 0 (exps4 0) [⟨1, none⟩, ⟨1, none⟩] = .fail "duplicated" 0 1 := by decide
+example : checkRun 1 exps4 [⟨0, 1, 1, none⟩] = .fail "lost" 0 2 := by decide
+example : checkRun 1 exps4 [⟨0, 1, 0, none⟩, ⟨0, 2, 0, none⟩, ⟨0, 1, 0, none⟩] = .pass := by decide
+example : checkRun 1 exps4 [⟨0, 1, 1, none⟩, ⟨0, 2, 0, none⟩, ⟨0, 1, 0, none⟩] = .fail "duplicated" 0 1 := by decide
 /-- A submission that must not be emitted is named as such also when the walk along the items would get stuck earlier, at a legitimate `A A`
     (`A B A` with `B` disabled). -/
 example : checkRun 1 (fun g => exps2 g ++ exps3 (some ⟨3, true, [(1, 1)]⟩) g) [⟨0, 1, 1, none⟩, ⟨0, 5, 0, some [58]⟩] =
